@@ -20,24 +20,28 @@ from harness import gen, c01_help as H  # noqa: E402
 from props import c01 as C01  # noqa: E402
 
 CLAIM = {
-    "text": "Unbounded theorems over the shared executable generic-ring model of the hydraulic build_system_matrix: every "
-            "solution x of the assembled system has x = 0 at every slack node and at every controlled node of an active "
-            "pressure-control branch (so p stays p_init in every iteration), identity rows keep the prescribed flow, the "
-            "momentum row of any other branch is dm x_b + dp x_from + dp1 x_to = load_vec; p_init written by "
-            "set_fixed_node_entries is the mean of all pressure-fixing elements (law of one call and of two consecutive "
-            "calls); lift / compressor-ratio fixed points of the kernel's load_vec line. Tied to /repo by exact "
-            "correspondences inside Coq (matrix at Z, set_fixed_node_entries at Q) and by the captured hook columns.",
-    "note": "All theorems closed under the global context. Partial: p_init_is_mean is the per-junction algebraic law; the "
-            "grouping / placement over labels is tied by the exact correspondence only. Lift, ratio and pump-curve clauses "
-            "are fixed-point statements over the kernel line load_vec = p_from - p_to + PL + height - friction (that line "
-            "is C02's T-tie) - on results they are monitored with a derived tolerance. PumpStdType.get_pressure itself is "
-            "C19. Known finding: pump lift uses the volume flow at NORMAL_TEMPERATURE density, the reported vdot uses the "
-            "real density (known/C03.json).",
-    "technique": "Coq proof over hand-written generic-ring model + exact model/implementation correspondence inside Coq "
-                 "+ exact rational oracle + set-point monitors",
+    "text": "Unbounded theorems over the shared executable generic-ring model (coq/C01/Model.v): every solution x of the "
+            "assembled hydraulic system has x = 0 at every slack node and at every controlled node of an active "
+            "pressure-control branch (p stays p_init in every iteration), identity rows keep the prescribed flow, the "
+            "momentum row of any other branch is dm x_b + dp x_from + dp1 x_to = load_vec (circ-pump-pressure row as a "
+            "corollary); set_fixed_node_entries over ANY table (labels, row order, several rows per junction, type "
+            "filter): new PINIT_i * new count = old PINIT_i * old count + sum of the valid values on node i and the count "
+            "grows by their number (p_init is the mean over ext grids and circulation pumps, grouped form), plus the "
+            "one- / two-call algebra; lift / compressor-ratio fixed points of the kernel's load_vec line. Generated "
+            "facts: which hooks write the prescribed rows (JAC_DERIV_DM/DP/DP1, LOAD_VEC_BRANCHES, NODE_TYPE, PL, PINIT). "
+            "Tied to /repo by exact correspondences inside Coq (matrix at Z, set_fixed_node_entries at Q with both "
+            "models) and by the hook columns captured at the real build call.",
+    "note": "Generic-ring theorems closed under the global context; C01.PropsT kernel facts list "
+            "ClassicalDedekindReals.sig_forall_dec. Partial / monitored only: lift, ratio and pump-curve clauses are "
+            "fixed-point statements over the kernel line load_vec = p_from - p_to + PL + height - friction (C02's T-tie) "
+            "and are monitored on results (absolute pressures with p_amb(height), own std type of each pump at its "
+            "reported vdot); PumpStdType.get_pressure itself is C19 (pump_lift); const-flow result rows are C01 "
+            "(constflow_results_rows).",
+    "technique": "Coq proof over hand-written generic-ring model + generated hook facts + exact model/implementation "
+                 "correspondence inside Coq + exact rational oracle + set-point monitors",
     "design": "DESIGN.md 4/C03 + design_notes/C03.md",
 }
-GEN = []
+GEN = C01.GEN
 
 
 def budget(ctx):
@@ -116,7 +120,9 @@ def run(ctx):
                          "non-trivial = >= 2 valid elements on one junction or >= 2 component classes. pipeflow case = "
                          "canonical spec; non-trivial = at least one set-point element beside ext grids")
     b = budget(ctx)
+    C01.gen_tties(ctx)
     ctx.prove("C03")
+    ctx.prove("C01", props="PropsT")                 # hooks_write_prescribed_rows, hooks_preserve_node_columns (generated facts)
     specs = C01.make_specs(ctx, b["nets"], heat_every=5)
     suspects = []
     # ---------------------------------------------------------------- H-tie 1: matrix (shared with C01)
